@@ -5,7 +5,7 @@
 //!   elect <this> <peer> <id>:<srv>:<nonce> ...
 //!   table <this> <op> ; <op> ; ...     with ops
 //!       open <id> <srv> | reg <id> <peer> <nonce> | cc <id> | cs <peer> <nonce>
-//!       | commit <id> | el <id> | rm <id> | ready <id>
+//!       | commit <id> | commith <id> | el <id> | rm <id> | ready <id>
 //! stdout: one Coq-syntax term per case.
 use std::collections::HashMap;
 use std::sync::{Arc, Mutex};
@@ -102,6 +102,26 @@ async fn run_table(rest: &str) -> String {
                 }
                 outs.push("OUnit".into());
             }
+            "commith" => {
+                // the real ConnectionAuthenticated handler: which sessions does it stop, and is the
+                // `authenticated` event published?
+                let id = idof(&cells, u(w[1]));
+                let before = events.0.lock().unwrap().len();
+                let alive_before: Vec<u64> = cells
+                    .iter()
+                    .filter(|(_, c)| c.get_status() < ractor::ActorStatus::Stopping)
+                    .map(|(m, _)| *m)
+                    .collect();
+                node.handle(NodeServerMessage::ConnectionAuthenticated(id)).await;
+                tokio::time::sleep(std::time::Duration::from_nanos(1)).await;
+                let published = events.0.lock().unwrap()[before..].iter().any(|e| e.starts_with("auth "));
+                let mut stopped: Vec<u64> = alive_before
+                    .into_iter()
+                    .filter(|m| cells[m].get_status() >= ractor::ActorStatus::Stopping)
+                    .collect();
+                stopped.sort();
+                outs.push(format!("OCommitH {} {}", coq_bool(published), coq_nums(stopped)));
+            }
             "ready" => {
                 // the real message handler decides whether a ready event is published
                 let before = events.0.lock().unwrap().len();
@@ -119,7 +139,7 @@ async fn run_table(rest: &str) -> String {
     coq_list(&outs)
 }
 
-#[tokio::main(flavor = "current_thread")]
+#[tokio::main(flavor = "current_thread", start_paused = true)]
 async fn main() {
     for line in stdin_lines() {
         let (kind, rest) = line.split_once(' ').unwrap_or((&line, ""));
